@@ -115,8 +115,8 @@ def main():
         "version": 1,
         "setup_cmd": "./check setup",
         "hooks": {
-            "guard": "cargo feature verif-hooks",
-            "enable": "harness/Cargo.toml depends on /repo by path with features = [\"verif-hooks\"]; cargo build in harness/",
+            "guard": "cargo features verif-hooks and verif-hooks-capture (both off by default)",
+            "enable": "harness/Cargo.toml depends on /repo by path with features = [\"verif-hooks\"]; cargo build in harness/. The capture-loop hook has its own feature verif-hooks-capture, used only by the small binary harness-caprd that checks/c16.py builds. Later hook commits (650b11d, ef7ff1e) only touch lines that earlier hook commits added.",
             "baseline_off_cmd": "cd /repo && cargo test --workspace --no-fail-fast --offline",
             "source_commits": hooks_commits,
             "add_only": True,
